@@ -1,0 +1,23 @@
+//go:build verif
+
+// Machine-checked contracts for this package (comment-only; compiled only with -tags verif,
+// and even then contributes no code).  Read by /verif/govc; see /verif/DESIGN.md.
+
+package ipsets
+
+//@ -- IP set names: prefix + set id, truncated to the kernel limit.  (Set ids are themselves secure hashes, so
+//@ -- distinctness after truncation rests on the ids differing within the kept characters - assumed.)
+//@ func combineAndTrunc
+//@   property C37
+//@   option mathint
+//@   requires maxLength >= 0
+//@   ensures len(res) <= maxLength && res == (len(prefix) + len(suffix) > maxLength ? (prefix + suffix)[0:maxLength] : prefix + suffix)
+//@   assigns nothing
+
+//@ func (IPVersionConfig).NameForMainIPSet
+//@   property C37
+//@   option mathint
+//@   ensures len(res) <= 31 && res == (len(c.mainSetNamePrefix) + len(setID) > 31 ? (c.mainSetNamePrefix + setID)[0:31] : c.mainSetNamePrefix + setID)
+//@   assigns nothing
+//@ layout maxIPSetNameLength: MaxIPSetNameLength == 31
+//@   property C37
